@@ -17,6 +17,7 @@ func init() {
 	register("C06", "every promise created by a future combinator is completed on every path of its call-back chain", func(c *core.Ctx) {
 		Complete(c, "R-COMPLETE", libPkgs(c))
 		PanicCapture(c, "R-PANIC", libPkgs(c), map[string]bool{"future.Apply": true, "future.Apply2": true})
+		SubOrder(c, "R-SUBORDER", []*packages.Package{c.Pkg("future"), c.Pkg("fp")}, 2)
 	})
 }
 
